@@ -24,6 +24,46 @@ CHECKS = {
             "Generated-input search with an independent plain-python circular-interval state machine as reference model; gate values are avoided by construction, seam approaches and buffer zones are forced by the region generator; the thorough tier enumerates all length<=4 sequences over a 24-point grid for the library's boundary sets. Transition bookkeeping is compared with a literal loop for 1-D, 2-D and ragged inputs.",
             "Angles in [0,360) at >= 1e-6 from gate values; library boundary sets with every buffer its range check admits; random boundary sets with limited buffers.",
             "DESIGN.md §2 C20"),
+    "C05": ("exploration",
+            "Hypothesis-generated ragged arrays x index-expression grammar vs list-of-rows numpy model (three-way verdict: must-raise / unrepresentable / equal values and row structure); exhaustive small slice-pair enumeration in thorough",
+            "Generated-input search against an independent list-of-rows reference model evaluated with plain numpy semantics; every read form of the statement is its own clause; out-of-row element access must raise; the thorough tier enumerates all length vectors with <=3 rows of length <=3 x slice pairs completely.",
+            "Element dtype of returned rows not compared; selections with empty rows may raise or return the equal structure.",
+            "DESIGN.md §2 C05"),
+    "C06": ("exploration",
+            "Hypothesis stateful testing (RuleBasedStateMachine): operation histories applied to RaggedArray and to a list-of-rows model, every observer compared after every step; shrunk JSON history replays without Hypothesis; separate aliasing clause",
+            "Model-based stateful search: rules draw operations valid for the current model state (element/row/row-slice/2-D slice/column/fancy/mask writes, appends, augmented and binary operators), the invariant compares rows, iteration, flat data, lengths, starts, size, shape, every element, reductions and comparisons with the model after each step; operators must return new objects and leave operands unchanged.",
+            "Same-length row assignment only; writes through row views excluded; entirely empty write selections may raise but must not change anything; dtype of the flat buffer not compared.",
+            "DESIGN.md §2 C06, §7.2"),
+    "C10": ("exploration",
+            "Hypothesis-generated data/centers/metrics/length vectors vs brute-force distance matrix (any minimiser accepted), partition round-trip and index-addressing oracles, synthetic trajectory files for batch reassignment vs Kabsch/md.rmsd brute force; exhaustive small partition enumeration",
+            "Generated-input search with brute-force reference oracles for nearest-center assignment (direct, predict, file-based reassign with forced multi-batch splits), and literal oracles for partitioning, (trajectory, frame) addressing, container type and the per-label center finder.",
+            "Tie-breaking not asserted; rmsd tolerance 1e-4 relative on squared values; >= 4 non-planar atoms for rmsd cases.",
+            "DESIGN.md §2 C10"),
+    "C11": ("exploration",
+            "Hypothesis-generated block-structured count matrices x thresholds x containers vs own SCC computation (boolean Warshall closure, tie-tolerant heaviest component); exhaustive enumeration of all 3x3 {0,1,2} and 4x4 0/1 matrices in thorough",
+            "Generated-input search with an independent strongly-connected-component oracle; every sentence (heaviest SCC, strong connectivity, sub-matrix, in-place variant, mapping bijection/order, variant agreement, container type, dense==sparse, input unchanged, MSM mapping) is its own clause; finite sub-domains enumerated completely.",
+            "Which of several equally heavy components is kept is not asserted; thresholds >= 1.",
+            "DESIGN.md §2 C11"),
+    "C14": ("exploration",
+            "Hypothesis-generated worlds (size, trajectory lengths, tie-free data, stopping criteria, rank schedules) executed on an in-process communicator double with a baton scheduler; differential oracle = serial algorithm / serial definition, compared on every rank",
+            "Generated-input search over world sizes 1..9, length vectors and arrival orders at collectives against the serial computation on the concatenated data; the double verifies that all ranks call the same collective with the same root (deadlock / buffer mismatch = violation). Decides the algorithmic claim only.",
+            "No MPI runtime in the sandbox: real mpi4py/libmpi buffer handling is outside reach; the double's fidelity to MPI semantics is trusted.",
+            "DESIGN.md §2 C14, §7.2"),
+    "C15": ("exploration",
+            "Hypothesis-generated arrays/dtypes/compression/strides/key subsets: HDF5 save->load round-trip with bit equality; synthetic trajectory files x worker counts x injected per-file delays (completion order owned by the generator) for load_as_concatenated vs per-file concatenation",
+            "Round-trip and differential oracles with exact (bitwise) equality; worker completion order is a generated dimension through delays injected into the forked workers; exhaustive row-count and (len,len,stride) sub-domains in thorough.",
+            "Global lengths of striped loaders under stride>1 not asserted (undocumented); plain-ndarray stride axis ambiguity accepted both ways.",
+            "DESIGN.md §2 C15"),
+    "C17": ("exploration",
+            "Hypothesis-generated conserved DAG flows / arbitrary weighted digraphs / perturbed flows vs exhaustive simple-path enumeration, threshold-reachability widest-path oracle and tie-tolerant residual replay; exhaustive 3- and 4-node 0/1/2-weight digraphs",
+            "Generated-input search with validity predicates (simple path, positive edges, flux = min edge), independent bottleneck-optimality oracles, residual replay for successive paths, monotonicity, sum bound, fraction reached, stopping rule and input immutability; one recorded known finding (bottleneck removal scheme can over-explain the flux).",
+            "Dense ndarray flux matrices; num_paths >= 1; decisions within 1e-9 of the cutoff not judged.",
+            "DESIGN.md §2 C17"),
+    "C19": ("fault_enumeration",
+            "Fault injection (pre-filled outputs for every masked ufunc without out= and every np.empty/empty_like, 5 fill patterns) + metamorphic relations (repeat, rebuilt arguments, thread counts, preceding call history, argument immutability) over a registry of 35 numerical routines with Hypothesis-generated arguments; AST pass as denominator",
+            "For each generated call the result must be bit-identical under every injected heap fill, every thread count, after any generated prefix of other library calls and on repetition, and arguments must be unchanged. The evidence lists which masked call sites / empty allocations the wrappers actually observed against the AST-derived list.",
+            "Heap contents are modelled by pre-filling buffers numpy is left to allocate, not by driving malloc; OpenMP schedules not controllable.",
+            "DESIGN.md §2 C19"),
 }
 
 NOT_YET = {}
